@@ -347,11 +347,13 @@ SPECS = {
                      "pull more items than exist; plus grammars over extended grapheme clusters (single code points, CR LF, combining sequences, a flag, a ZWJ family, Hangul) through "
                      "&Graphemes and &[&Grapheme] side by side (the harness checks the token sequence against unicode-segmentation first); "
                      "non-trivial = non-empty input with a backtracking site"),
-    "C11": Spec("C11", CORE + ITER + ["Validate"] + CTX + RECOVER, obs_full, sem_obs=obs_vv_emis_last, ekinds=("rich", "simple"), n_quick=700,
-                gen_hook=lambda G, rng: (G.leftrec() if rng.random() < 0.12 else G.memoize(G.rec(3) if rng.random() < 0.2 else G.g(rng.randint(2, 4)), 0.35)),
+    "C11": Spec("C11", CORE + ITER + ["Validate"] + CTX + RECOVER + DECOR * 2, obs_full, sem_obs=obs_vv_emis_last, ekinds=("rich", "simple"), n_quick=700,
+                gen_hook=lambda G, rng: (G.leftrec() if rng.random() < 0.12 else G.memo_clones() if rng.random() < 0.2 else
+                                         G.memoize(G.rec(3) if rng.random() < 0.2 else G.g(rng.randint(2, 4)), 0.35)),
                 nontrivial=lambda g, inp: len(inp) > 0 and has_head(g, {"Memo"}),
                 rule="C01/C02 grammars and guarded recursive grammars with memoized() inserted at random subsets of nodes (nested and adjacent placements "
-                     "included; the boxed builder gives every node its own address), plus the left-recursive family expr = (expr op atom).memoized() | atom; "
+                     "included; labelled / map_err decorations), one memoized parser cloned into several alternatives (clones share the cache key) with a "
+                     "sheltering / rewriting / discarding combinator between the visits, plus the left-recursive family expr = (expr op atom).memoized() | atom; "
                      "oracle: the specification in which memoized() is the identity; non-trivial = a memoized node present, non-empty input"),
     "C12": Spec("C12", CORE + ["Rec"] * 4, obs_vv, ekinds=("rich",), ikinds=("str", "slice"), n_quick=700,
                 gen_hook=lambda G, rng: (G.rec(3) if rng.random() < 0.85 else ["Then", G.rec(2), G.g(1)]),
